@@ -981,6 +981,21 @@ def part_e2e(ctx, objdir):
             ctx.violation("replay --with-syms DIR differs from replay with the recorded symbol files",
                           {"part": "E", "with_syms": funcs_of_replay(out2), "plain": names}, True)
         ctx.case(key=("E", "with-syms", k), tags=["E:with-syms"])
+        # record --with-syms DIR: the symbol files are taken from DIR (plain copy) and replay shows the same
+        d3 = os.path.join(root, "recsyms%d" % k)
+        rc, out3, err3 = sh(["timeout", "40", uft, "record", "--no-pager", "--no-event", "--libmcount-path=" + objdir,
+                             "--with-syms", sd, "-d", d3, "./prog", os.path.join(root, "libc10plug.so")], timeout=60, cwd=root)
+        if rc == 124 or not os.path.exists(os.path.join(d3, "task.txt")):
+            ctx.broken("e2e: uftrace record --with-syms failed (rc=%d): %s" % (rc, (out3 + err3)[-300:]))
+        else:
+            differ = [f for f in os.listdir(sd) if f.endswith(".sym") and
+                      (not os.path.exists(os.path.join(d3, f)) or open(os.path.join(d3, f), "rb").read() != open(os.path.join(sd, f), "rb").read())]
+            rc, out4, err4 = datadir.uftrace(objdir, "replay", d3, ["-f", "none"])
+            names4 = [n for n in funcs_of_replay(out4) if n in EXPECT]
+            if differ or names4 != EXPECT:
+                ctx.violation("record --with-syms DIR: symbol files are not the ones of DIR, or replay does not show the functions by name",
+                              {"part": "E", "differing_sym_files": differ, "replay_functions": funcs_of_replay(out4), "expected": EXPECT}, True)
+            ctx.case(key=("E", "record-with-syms", k), tags=["E:record-with-syms"])
         # reload every .sym file record wrote: identical after another save (writer/reader fixpoint)
     if len(set(b[0] for _, b in runs if b)) > 1:
         ctx.tag("E:aslr-bases-differ")
@@ -992,7 +1007,8 @@ def part_e2e(ctx, objdir):
 # traced functions; the constructor dlopen()s a second library.  Ground truth: the load bases the
 # program itself logs (dladdr) and `nm -S` of the ELF files.  EVERY record of the run is judged.
 R_DEP_C = "int c10dep_fn(int x) { return x + 100; }\n"
-R_LIB_C = "int c10lib_fn(int x) { return x * 3; }\n"
+R_LIB_C = ("#include <stdlib.h>\n#include <string.h>\n"
+           "int c10lib_fn(int x) { return x * 3 + atoi(\"5\") + (int)strlen(\"abc\"); }\n")   # PLT calls inside a shared library
 R_B_CC = r"""
 #include <stdio.h>
 #include <dlfcn.h>
@@ -1058,6 +1074,44 @@ def nm_funcs(path):
     return sorted((a, v[0][0], v[0][1]) for a, v in by.items() if len(v) == 1 and v[0][0] > 0)
 
 
+def objdump_plt(path):
+    """[(addr, 16, name)] of the name@plt labels binutils derives for .plt / .plt.sec"""
+    import re
+    rc, out, err = sh(["objdump", "-d", "-j", ".plt", "-j", ".plt.sec", "--no-show-raw-insn", path])
+    has_sec = "Disassembly of section .plt.sec" in out
+    res, sec = [], None
+    for l in out.splitlines():
+        if l.startswith("Disassembly of section"):
+            sec = l.split()[-1].rstrip(":")
+        m = re.match(r"^([0-9a-f]+) <([^@>+]+)@plt>:", l)
+        if m and (sec == ".plt.sec" or not has_sec):
+            res.append((int(m.group(1), 16), 16, m.group(2)))
+    return res
+
+
+def parse_dump(out):
+    """`uftrace dump` -> [(tid, time, addr, name)] of the entry records"""
+    import re
+    res = []
+    for l in out.splitlines():
+        m = re.match(r"^\s*(\d+\.\d+)\s+(\d+): \[entry\] (.*)\(([0-9a-f]+)\) depth: \d+", l)
+        if m:
+            res.append((int(m.group(2)), ts_ns(m.group(1)), int(m.group(4), 16), m.group(3)))
+    return res
+
+
+def parse_report(out):
+    names, on = [], False
+    for l in out.splitlines():
+        if l.strip().startswith("====="):
+            on = True
+            continue
+        k = l.split()
+        if on and len(k) >= 6:
+            names.append(" ".join(k[5:]))
+    return names
+
+
 def ts_ns(txt):
     sec, ns = txt.split(".")
     return int(sec) * 10**9 + int(ns)
@@ -1113,7 +1167,7 @@ R_EVALS = [
 ]
 
 
-def r_scenario(ctx, objdir, root, tag, na, nb, nested, dep, relpath, lazy):
+def r_scenario(ctx, objdir, root, tag, na, nb, nested, dep, relpath, lazy, nest=False):
     """build, record, observe; returns a dict or None (ctx.broken called)"""
     uft = os.path.join(objdir, "uftrace")
     w = os.path.join(root, tag)
@@ -1131,7 +1185,7 @@ def r_scenario(ctx, objdir, root, tag, na, nb, nested, dep, relpath, lazy):
     for fn, txt in src.items():
         open(os.path.join(w, fn), "w").write(txt)
     sh(["gcc", "-pg", "-O0", "-fPIC", "-shared", "-o", "libc10dep.so", "dep.c"], cwd=w, check=True)
-    sh(["gcc", "-pg", "-O0", "-fPIC", "-shared", "-o", "libc10lib.so", "lib.c"], cwd=w, check=True)
+    sh(["gcc", "-pg", "-O0", "-fno-builtin", "-fPIC", "-shared", "-o", "libc10lib.so", "lib.c"], cwd=w, check=True)
     sh(["g++", "-pg", "-O0", "-fPIC", "-shared", "-o", "libc10b.so", "b.cc", "-ldl"], cwd=w, check=True)
     sh(["gcc", "-pg", "-O0", "-fPIC", "-shared", "-o", "libc10a.so", "a.c", "-ldl"]
        + (["-L.", "-lc10dep", "-Wl,-rpath," + w] if dep else []), cwd=w, check=True)
@@ -1139,8 +1193,8 @@ def r_scenario(ctx, objdir, root, tag, na, nb, nested, dep, relpath, lazy):
     d = os.path.join(w, "data")
     env = {"C10_LIBB": os.path.join(w, "libc10b.so")} if nested else {"C10_LIBB": ""}
     liba = "./libc10a.so" if relpath else os.path.join(w, "libc10a.so")
-    rc, out, err = sh(["timeout", "40", uft, "record", "--no-pager", "--no-event", "--libmcount-path=" + objdir,
-                       "-d", d, "./prog", liba], timeout=60, cwd=w, env=env)
+    rc, out, err = sh(["timeout", "40", uft, "record", "--no-pager", "--no-event", "--libmcount-path=" + objdir]
+                      + (["--nest-libcall"] if nest else []) + ["-d", d, "./prog", liba], timeout=60, cwd=w, env=env)
     if rc == 124 or not os.path.exists(os.path.join(d, "task.txt")):
         ctx.broken("e2e(%s): uftrace record failed (rc=%d): %s" % (tag, rc, (out + err)[-300:]))
         return None
@@ -1154,10 +1208,15 @@ def r_scenario(ctx, objdir, root, tag, na, nb, nested, dep, relpath, lazy):
     if rc != 0 or not recs:
         ctx.broken("e2e(%s): uftrace replay failed (rc=%d): %s" % (tag, rc, (rout + rerr)[-300:]))
         return None
-    elfs = {n: nm_funcs(os.path.join(w, n)) for n in ("prog", "libc10lib.so", "libc10a.so", "libc10b.so", "libc10dep.so")
-            if n in bases}
-    return {"tag": tag, "dir": d, "w": w, "bases": bases, "recs": recs, "elfs": elfs, "events": parse_task_txt(os.path.join(d, "task.txt")),
-            "replay": rout, "params": {"na": na, "nb": nb, "nested": nested, "dep": dep, "relpath": relpath, "lazy": lazy}}
+    elfs = {n: nm_funcs(os.path.join(w, n)) + objdump_plt(os.path.join(w, n))
+            for n in ("prog", "libc10lib.so", "libc10a.so", "libc10b.so", "libc10dep.so") if n in bases}
+    rc2, dout, derr = datadir.uftrace(objdir, "dump", d, ["--demangle=no"])
+    rc3, pout, perr = datadir.uftrace(objdir, "report", d, ["--demangle=no"])
+    if rc2 != 0 or rc3 != 0:
+        ctx.broken("e2e(%s): uftrace dump/report failed (rc=%d/%d): %s" % (tag, rc2, rc3, (derr + perr)[-300:]))
+        return None
+    return {"tag": tag, "dump": parse_dump(dout), "report": parse_report(pout), "dir": d, "w": w, "bases": bases, "recs": recs, "elfs": elfs, "events": parse_task_txt(os.path.join(d, "task.txt")),
+            "replay": rout, "params": {"na": na, "nb": nb, "nested": nested, "dep": dep, "relpath": relpath, "lazy": lazy, "nest_libcall": nest}}
 
 
 def r_evaluate(ctx, sc, skip_mods=()):
@@ -1180,6 +1239,10 @@ def r_evaluate(ctx, sc, skip_mods=()):
         probes.append((tid, t, addr, None if israw else name))
         if inmod:
             modrows.append((mod, inmod[0][0]))
+    for tid, t, addr, name in sc.get("dump", []):          # the same records as `uftrace dump` shows them
+        probes.append((tid, t, addr, None if name.startswith("<") else name))
+        if name.startswith("<") and not any(m[1] <= addr < m[2] for m in mods if m[0] in skip_mods):
+            raw.append((tid, addr, t, "dump", name))
     events = sc["events"]
     d = sc["dir"]
     maps = {}
@@ -1245,17 +1308,18 @@ def part_recordings(ctx, objdir):
     os.makedirs(root, exist_ok=True)
     # "full": nested dlopen from a constructor AND a DT_NEEDED dependency that comes in with the opened library
     # (regression case of fix 0c4417a: before it the dependency got no DLOP entry)
-    variants = [("full", 2, 3, True, True, False, False)]
+    variants = [("full", 2, 3, True, True, False, False, True)]
     for k in range(ctx.n(1, 5)):
         variants.append(("v%d" % k, rng.randrange(1, 4), rng.randrange(1, 4), rng.random() < 0.6, rng.random() < 0.5,
-                         rng.random() < 0.5, rng.random() < 0.5))
-    for tag, na, nb, nested, dep, relpath, lazy in variants:
-        sc = r_scenario(ctx, objdir, root, tag, na, nb, nested, dep, relpath, lazy)
+                         rng.random() < 0.5, rng.random() < 0.5, rng.random() < 0.5))
+    for tag, na, nb, nested, dep, relpath, lazy, nest in variants:
+        sc = r_scenario(ctx, objdir, root, tag, na, nb, nested, dep, relpath, lazy, nest)
         if sc is None:
             continue
         r = r_evaluate(ctx, sc)
         tags = ["R:ctor", "R:dependency" if dep else "R:no-dependency", "R:c++-global-init" if nested else "R:no-nested", "R:nested-dlopen" if nested else "R:single-dlopen",
-                "R:relative-path" if relpath else "R:absolute-path", "R:lazy" if lazy else "R:now"]
+                "R:relative-path" if relpath else "R:absolute-path", "R:lazy" if lazy else "R:now",
+                "R:nest-libcall(library PLT)" if nest else "R:exe-PLT-only", "R:dump", "R:report"]
         ctx.case(key=("R", tag, na, nb, nested, dep, relpath, lazy), tags=tags, size=len(sc["recs"]),
                  sample={"part": "R", "params": sc["params"], "records": len(sc["recs"]),
                          "functions": [x[4] for x in sc["recs"]][:14]} if tag == "full" else None)
@@ -1267,8 +1331,17 @@ def part_recordings(ctx, objdir):
             want |= {"c10b_helper", "c10b_run", "_GLOBAL__sub_I_b.cc"}
         if dep:
             want |= {"c10dep_fn"}
+        if nest:
+            want |= {"atoi", "strlen"}            # called through the PLT of libc10lib.so
         addrs_seen = set(in_which(sc, x[1]).split(" of ")[0] for x in sc["recs"])
         missing = sorted(want - addrs_seen)
+        rep_names, play_names = set(sc["report"]), set(x[4] for x in sc["recs"])
+        if rep_names != play_names:
+            ctx.violation("`uftrace report` and `uftrace replay` name the functions of one recording differently",
+                          {"part": "R", "params": sc["params"], "only_in_report": sorted(rep_names - play_names),
+                           "only_in_replay": sorted(play_names - rep_names)}, True)
+        if len(sc["dump"]) != len(sc["recs"]):
+            ctx.broken("e2e(%s): dump shows %d entry records, replay %d" % (tag, len(sc["dump"]), len(sc["recs"])))
         if missing:
             ctx.broken("e2e(%s): the recording does not contain records of %s (scenario did not run as designed)" % (tag, missing),
                        sc["replay"][-1500:])
@@ -1489,7 +1562,14 @@ def part_plt(ctx, h, objdir):
         symtab_rec, _ = parse_tab(h.run(["LOADSYM %s" % os.path.join(d, name + ".sym")]))
         plt_bad = [("%x" % a, n.decode()) for a, sz, t, n in symtab_rec
                    if t == "P" and n.decode() in dict(f["truth"]) and a != dict(f["truth"])[n.decode()] - f["vaddr0"]]
-        ctx.case(key=("P", "record", name), tags=["P:record+replay", "P:rec-pie" if pie else "P:rec-non-pie"], size=len(recs))
+        tmod_ = [c[5] for c in cases if c[0] == name][0]
+        if symtab_rec != tmod_:
+            diff = [x for x in symtab_rec if x not in tmod_][:5] + [x for x in tmod_ if x not in symtab_rec][:5]
+            ctx.violation("the symbol file written by record does not reload to the table the loader builds from the ELF file",
+                          {"part": "P", "exe": name, "pie": pie, "differing_entries": [["%x" % a, sz, t, n.decode("latin1")] for a, sz, t, n in diff]},
+                          True)
+        ctx.case(key=("P", "record", name), tags=["P:record+replay", "P:rec-pie" if pie else "P:rec-non-pie", "P:recorded-sym=elf-table"],
+                 size=len(recs))
         if wrong or plt_bad:
             ctx.violation("calls through PLT entries are not shown under the function's name (recording of %s executable%s)"
                           % ("a PIE" if pie else "a non-PIE", "; PLT entries in the written .sym file are not module-relative" if plt_bad else ""),
